@@ -1,4 +1,83 @@
+// Kani harnesses for datafusion/execution/src/memory_pool/peak_recording.rs (property C17).
 #[allow(unused_qualifications, unused_imports, dead_code, clippy::all)]
 mod verif_kani {
     use super::*;
+    use crate::memory_pool::UnboundedMemoryPool;
+    const HALF: usize = usize::MAX / 2;
+
+    /// a minimal inner pool whose try_grow outcome is nondeterministic: the wrapper's contract
+    /// must hold for whatever the wrapped pool decides
+    #[derive(Debug)]
+    struct AnyInner { grant: bool, used: AtomicUsize }
+    impl std::fmt::Display for AnyInner {
+        fn fmt(&self, _f: &mut Formatter<'_>) -> std::fmt::Result { Ok(()) }
+    }
+    impl MemoryPool for AnyInner {
+        fn name(&self) -> &str { "any" }
+        fn grow(&self, _r: &MemoryReservation, a: usize) { self.used.fetch_add(a, Ordering::Relaxed); }
+        fn shrink(&self, _r: &MemoryReservation, s: usize) { self.used.fetch_sub(s, Ordering::Relaxed); }
+        fn try_grow(&self, _r: &MemoryReservation, a: usize) -> Result<()> {
+            if self.grant { self.used.fetch_add(a, Ordering::Relaxed); Ok(()) }
+            else { Err(datafusion_common::DataFusionError::ResourcesExhausted(String::new())) }
+        }
+        fn reserved(&self) -> usize { self.used.load(Ordering::Relaxed) }
+    }
+
+    #[kani::proof]
+    #[kani::unwind(3)]
+    fn c17_peak_recording() {
+        let grant: bool = kani::any();
+        let r0: usize = kani::any();
+        let p0: usize = kani::any();
+        let m0: usize = kani::any();
+        let a: usize = kani::any();
+        kani::assume(r0 <= HALF && a <= HALF && p0 >= r0 && m0 >= p0);
+        let inner_concrete = Arc::new(AnyInner { grant, used: AtomicUsize::new(r0) });
+        let inner: Arc<dyn MemoryPool> = inner_concrete.clone();
+        let rec = Arc::new(PeakRecordingPool { inner, reserved: AtomicUsize::new(r0), peak: AtomicUsize::new(p0), max: AtomicUsize::new(m0) });
+        let pool: Arc<dyn MemoryPool> = rec.clone();
+        let r = MemoryConsumer::new("c").register(&pool);
+        let op: u8 = kani::any();
+        kani::assume(op < 4);
+        let mx = |x: usize, y: usize| if x >= y { x } else { y };
+        match op {
+            0 => {
+                let res = rec.try_grow(&r, a);
+                let ok = res.is_ok();
+                std::mem::forget(res);
+                assert!(ok == grant, "C17.peak.try_grow.outcome_is_inner_outcome");
+                if ok {
+                    assert!(rec.reserved.load(Ordering::Relaxed) == r0 + a, "C17.peak.try_grow.ok_running_total");
+                    assert!(rec.peak_reserved() == mx(p0, r0 + a), "C17.peak.try_grow.ok_peak_is_max");
+                    assert!(rec.max_reserved() == mx(m0, r0 + a), "C17.peak.try_grow.ok_max_is_max");
+                } else {
+                    assert!(rec.reserved.load(Ordering::Relaxed) == r0 && rec.peak_reserved() == p0 && rec.max_reserved() == m0,
+                            "C17.peak.try_grow.failed_attempt_moves_nothing");
+                }
+            }
+            1 => {
+                rec.grow(&r, a);
+                assert!(rec.reserved.load(Ordering::Relaxed) == r0 + a, "C17.peak.grow.running_total");
+                assert!(rec.peak_reserved() == mx(p0, r0 + a) && rec.max_reserved() == mx(m0, r0 + a), "C17.peak.grow.marks");
+            }
+            2 => {
+                kani::assume(a <= r0);
+                rec.shrink(&r, a);
+                assert!(rec.reserved.load(Ordering::Relaxed) == r0 - a, "C17.peak.shrink.running_total");
+                assert!(rec.peak_reserved() == p0 && rec.max_reserved() == m0, "C17.peak.shrink.keeps_marks");
+            }
+            _ => {
+                rec.reset_peak();
+                assert!(rec.peak_reserved() == r0 && rec.max_reserved() == m0, "C17.peak.reset.peak_becomes_current_max_kept");
+            }
+        }
+        // representation invariant after every operation; the wrapper mirrors the inner total
+        assert!(rec.peak_reserved() >= rec.reserved.load(Ordering::Relaxed), "C17.peak.inv.peak_ge_current");
+        assert!(rec.max_reserved() >= rec.peak_reserved(), "C17.peak.inv.max_ge_peak");
+        assert!(rec.reserved() == rec.reserved.load(Ordering::Relaxed), "C17.peak.inv.mirror_of_inner_total");
+        kani::cover!(op == 0 && grant && p0 < r0 + a);
+        kani::cover!(op == 0 && !grant);
+        kani::cover!(op == 3 && p0 > r0);
+        std::mem::forget(r);
+    }
 }
